@@ -76,7 +76,7 @@ def run_sched_property(pid, tier, seed, level="other", level_note=None, extra_ca
         go, mo = {}, {}
         SH = 200
         for s in range(0, len(cases), SH):
-            g1, m1 = schedcheck.run_cases(vh, cases[s:s + SH], tmp, tag="sch%d" % s, ci=(pid in ("C03", "C06", "C08")))
+            g1, m1 = schedcheck.run_cases(vh, cases[s:s + SH], tmp, tag="sch%d" % s, ci=(pid in ("C03", "C04", "C06", "C08")))
             go.update(g1)
             mo.update(m1)
         mismatches, mon_viol = [], []
